@@ -46,6 +46,7 @@ namespace
 
     int g_fuse = 0;          // countdown; 0 = never fires
     bool g_armed = false;    // only while the call under test runs
+    bool g_tvthrow = false;  // this call asked for the throwing-capable trivial alternative ("tt":1 in the Begin line; random scripts of set triv)
     int g_next_id = 0;       // ids number tracked payload objects by construction order
     std::map<const void*, int> g_at;   // live tracked objects by address
 
@@ -79,6 +80,8 @@ namespace
     }
 
     template <int A> struct Mk { int v; };
+    const int SCRIBBLE = 0x5C21BB1E;   // what a throwing constructor of a trivial alternative leaves in its storage
+    const int UNORD = 7777;     // the unordered payload value (Variant!UNORD)
 
     const unsigned LIVE_MAGIC = 0x51AB1E55u, DEAD_MAGIC = 0xDEADBEEFu;
 
@@ -137,12 +140,14 @@ namespace
             magic = DEAD_MAGIC;
             EMIT("{\"op\":\"EDtor\",\"id\":%d}\n", i);
         }
-        friend bool operator==(const P& a, const P& b) { return a.v == b.v; }
-        friend bool operator!=(const P& a, const P& b) { return a.v != b.v; }
-        friend bool operator<(const P& a, const P& b) { return a.v < b.v; }
-        friend bool operator>(const P& a, const P& b) { return a.v > b.v; }
-        friend bool operator<=(const P& a, const P& b) { return a.v <= b.v; }
-        friend bool operator>=(const P& a, const P& b) { return a.v >= b.v; }
+        // values are only partially ordered: UNORD compares like a NaN (unordered with everything, itself included)
+        static bool un(const P& a, const P& b) { return a.v == UNORD || b.v == UNORD; }
+        friend bool operator==(const P& a, const P& b) { return !un(a, b) && a.v == b.v; }
+        friend bool operator!=(const P& a, const P& b) { return un(a, b) || a.v != b.v; }
+        friend bool operator<(const P& a, const P& b) { return !un(a, b) && a.v < b.v; }
+        friend bool operator>(const P& a, const P& b) { return !un(a, b) && a.v > b.v; }
+        friend bool operator<=(const P& a, const P& b) { return !un(a, b) && a.v <= b.v; }
+        friend bool operator>=(const P& a, const P& b) { return !un(a, b) && a.v >= b.v; }
     };
 
     // Trivial alternative A: trivially copyable and destructible, no lifetime events, nothing throws.
@@ -151,13 +156,26 @@ namespace
     {
         int v;
         Tv() = default;
-        Tv(Mk<A> m) noexcept : v(m.v) {}
-        friend bool operator==(const Tv& a, const Tv& b) { return a.v == b.v; }
-        friend bool operator!=(const Tv& a, const Tv& b) { return a.v != b.v; }
-        friend bool operator<(const Tv& a, const Tv& b) { return a.v < b.v; }
-        friend bool operator>(const Tv& a, const Tv& b) { return a.v > b.v; }
-        friend bool operator<=(const Tv& a, const Tv& b) { return a.v <= b.v; }
-        friend bool operator>=(const Tv& a, const Tv& b) { return a.v >= b.v; }
+        // alternative 3 of the trivial set: construction / assignment from a value may throw (fuse) - AFTER having scribbled over
+        // its storage; the type stays trivially copyable and trivially destructible (no lifetime events)
+        Tv(Mk<A> m) noexcept(A != 3) : v(A == 3 ? SCRIBBLE : m.v)
+        {
+            if (A == 3) { if (g_tvthrow) may_throw("ctor", A, "value"); v = m.v; }
+        }
+        Tv& operator=(Mk<A> m) noexcept(A != 3)
+        {
+            if (A == 3 && g_tvthrow) may_throw("assign", A, "value");
+            v = m.v;
+            return *this;
+        }
+        // values are only partially ordered: UNORD compares like a NaN (unordered with everything, itself included)
+        static bool un(const Tv& a, const Tv& b) { return a.v == UNORD || b.v == UNORD; }
+        friend bool operator==(const Tv& a, const Tv& b) { return !un(a, b) && a.v == b.v; }
+        friend bool operator!=(const Tv& a, const Tv& b) { return un(a, b) || a.v != b.v; }
+        friend bool operator<(const Tv& a, const Tv& b) { return !un(a, b) && a.v < b.v; }
+        friend bool operator>(const Tv& a, const Tv& b) { return !un(a, b) && a.v > b.v; }
+        friend bool operator<=(const Tv& a, const Tv& b) { return !un(a, b) && a.v <= b.v; }
+        friend bool operator>=(const Tv& a, const Tv& b) { return !un(a, b) && a.v >= b.v; }
     };
 
 }
@@ -193,6 +211,8 @@ namespace
     static_assert(!std::is_nothrow_constructible<P<1, true>, Mk<1>>::value && !std::is_nothrow_copy_constructible<P<1, true>>::value, "payload traits");
     static_assert(std::is_trivially_copyable<Tv<1>>::value && std::is_trivially_destructible<Tv<1>>::value
                   && std::is_nothrow_constructible<Tv<1>, Mk<1>>::value, "trivial alternative");
+    static_assert(std::is_trivially_copyable<Tv<3>>::value && std::is_trivially_destructible<Tv<3>>::value && std::is_nothrow_move_constructible<Tv<3>>::value
+                  && !std::is_nothrow_constructible<Tv<3>, Mk<3>>::value, "trivial alternative whose value constructor may throw");
     template <int A> typename alt_type<A>::arg make_arg(int val) { return typename alt_type<A>::arg{val}; }
     template <int A> using tracked_c = std::integral_constant<bool, alt_type<A>::tracked>;
 
@@ -862,6 +882,7 @@ int main()
         if (op != "Begin") { std::fprintf(stderr, "script: unknown op %s\n", op.c_str()); return 3; }
         const std::string& c = ev.str("c");
         int fuse = (int)ev.num("fuse", 0);
+        g_tvthrow = ev.num("tt", 0) != 0;
         if (!callable(c, ev.at("a"))) continue;
         std::printf("%s\n", line.c_str());
         std::fflush(stdout);      // whatever happens inside the call, the trace names the call
